@@ -309,6 +309,27 @@ def queues(cx):
     return vq, aq
 
 
+APPEND_ONLY = {"std::vec::Vec::push", "std::vec::Vec::extend_from_slice", "std::vec::Vec::reserve", "std::vec::Vec::shrink_to_fit",
+               "<std::vec::Vec<T, A> as std::iter::Extend<T>>::extend"}
+
+
+def queue_append_only(cx, run, rule, qs):
+    """the statistics (and the sample tables) are computed from the queues *after* the file has been written: they equal the accepted
+    frames only if nothing ever removes or replaces queue entries.  Store inventory: every direct mutation of a queue field itself
+    (not of an element's field) anywhere in the live library is an append."""
+    n = 0
+    for p in sorted(cx.live):
+        for (bb, i, (root, path), why, node) in cx.st.sites[p]:
+            if len(path) != 1 or path[0] not in qs or why.startswith("call "):
+                continue
+            n += 1
+            what = why[len("extcall "):] if why.startswith("extcall ") else why
+            run.check(what in APPEND_ONLY, rule, "queue append-only %s.%s <- %s" % (mir.norm(p).split("::")[-1], path[0], what.split("::")[-1]), "append",
+                      "%s mutates the sample queue `%s` through `%s`: entries of accepted frames are removed or replaced, so frame counts / duration read from the queue afterwards (statistics after finish, tables at finalize) no longer equal what was accepted"
+                      % (mir.norm(p), path[0], what), mir.loc_of(node))
+    run.floor(rule, n, 2, "direct queue mutations")
+
+
 def r5(cx, run):
     an, u, g = cx.an, cx.u, cx.g
     vq, aq = queues(cx)
@@ -317,6 +338,7 @@ def r5(cx, run):
         return
     vq, aq = next(iter(vq)), next(iter(aq))
     run.extra["queues"] = {"video": vq, "audio": aq}
+    queue_append_only(cx, run, "R5", (vq, aq))
     sites = []
     for p, b in cx.live.items():
         for blk in b["blocks"]:
